@@ -241,6 +241,34 @@ func c04Run(t *testing.T, run *Run, sc c04Scenario, rng *rand.Rand) {
 		bad := false
 		switch b {
 		case 0, 1:
+			// second build: "ghost" services are deployed on hosts of the pool (bound or not in the
+			// final table) and removed again, some before and some after the real deploys: the final
+			// set of services is the same, so routing must be too
+			var ghosts []string
+			ghost := func(k int) {
+				name := fmt.Sprintf("ghost%d", k)
+				h := pick(rng, []string{"a.com", "x.a.com", "y.a.com", "*.a.com", "com", "localhost", "b.com", "z.x.a.com", ""})
+				p := pick(rng, c04Prefixes)
+				g := c04Service{Name: name, Hosts: []string{h}, Prefixes: []string{p}}
+				for _, o := range sc.Services {
+					if c04Conflicts(g, o) {
+						return
+					}
+				}
+				w.AddTarget("svc-"+name+":80", nil)
+				if c04Deploy(w, g, g.Hosts, g.Prefixes) == "" {
+					ghosts = append(ghosts, name)
+				}
+			}
+			if b == 1 {
+				for k := 0; k < 3; k++ {
+					ghost(k)
+				}
+				if len(ghosts) > 0 && rng.IntN(2) == 0 {
+					w.Remove(ghosts[0])
+					ghosts = ghosts[1:]
+				}
+			}
 			for _, i := range rng.Perm(len(sc.Services)) {
 				s := sc.Services[i]
 				if b == 1 && rng.IntN(2) == 0 {
@@ -253,6 +281,17 @@ func c04Run(t *testing.T, run *Run, sc c04Scenario, rng *rand.Rand) {
 				if e := c04Deploy(w, s, s.Hosts, s.RawPfx); e != "" {
 					fail(w, "deploy-failed", "deploy of %s (hosts %v prefixes %v) failed: %s", s.Name, s.Hosts, s.RawPfx, e)
 					bad = true
+				}
+			}
+			if b == 1 {
+				for k := 3; k < 5; k++ {
+					ghost(k)
+				}
+				for _, g := range ghosts {
+					if c := w.Remove(g); c.Err != "" {
+						fail(w, "remove-failed", "remove of %s failed: %s", g, c.Err)
+						bad = true
+					}
 				}
 			}
 			if b == 0 {
